@@ -55,6 +55,10 @@ func H_C07_RegisterNode() {
 	s := symBroker(K, L, false)
 	id := NodeID(nondetString())
 	nn := newVNode()
+	if s.K > 0 && nondetBool() {
+		// the node being registered may be one the broker already knows (under this id or another)
+		nn = s.node[0]
+	}
 	var opts []Option
 	polOpt := false
 	var polStr RegistrationPolicy
